@@ -1,4 +1,5 @@
 //! verif-native: native companion of the solver-based checks (DSE explorer, witness replay).
+mod cfg;
 mod dse;
 mod eval;
 
